@@ -26,6 +26,9 @@ import CookModel.Lemmas.CollectorLast
 import CookModel.Lemmas.RoundtripRefsX
 import CookModel.Lemmas.RoundtripDocRefs
 import CookModel.Lemmas.RoundtripModes
+import CookModel.Lemmas.RoundtripModes2
+import CookModel.Lemmas.RoundtripModes3
+import CookModel.Lemmas.RoundtripDocModes
 /-
   C01  Printing a recipe as Cooklang and parsing it returns that recipe.
 
@@ -1718,5 +1721,294 @@ example : (parseEvents C01_modesEnv [] (C01_exModeBlocks.flatMap MBlock.events))
 example : (parseEvents (α := Rat) C01_modesEnv [] (compsEvents (C01_txt "[mode]" 3) (C01_txt "components" 11)
       [[.text (C01_txt "Add " 20)]] (C01_txt "[mode]" 40) (C01_txt "all" 48))).diags.toList.map (·.kind) =
     ["text-in-components-mode"] := by rfl
+
+/-! ### every mode switch, through the analysis pass and end to end (wave 4) -/
+
+/-- **`>> [mode]: v` / `>> [define]: v` in closed form.**  Under MODES a `>>` line whose trimmed key is `[mode]` or
+    `[define]` and whose outer-trimmed value is `all`/`default`, `components`/`ingredients`, `steps` or `text`
+    (`defineModeOf` = the accepted spellings of the code) sets the define mode to the selected one and does
+    NOTHING else: no map entry, no deprecation label, no diagnostic. -/
+theorem C01_define_mode_line {α : Type} [Arith α] (env : Env) (input : Str) (k v : Text) (s : Col α) (m : DefineMode)
+    (h : DefineLine env k v m) : (processEvent env input (.metadata k v) s).2 = { s with defineMode := m } :=
+  rtn_defineLine env k v s m h
+
+/-- **`>> [duplicate]: v` in closed form**: `new`/`default` or `reference`/`ref` (`duplicateModeOf`) sets the
+    duplicate mode and does nothing else. -/
+theorem C01_duplicate_mode_line {α : Type} [Arith α] (env : Env) (input : Str) (k v : Text) (s : Col α)
+    (m : DuplicateMode) (h : DuplicateLine env k v m) :
+    (processEvent env input (.metadata k v) s).2 = { s with duplicateMode := m } :=
+  rtn_duplicateLine env k v s m h
+
+example : DefineLine C01_modesEnv (C01_txt "[define]" 3) (C01_txt "text" 13) .text ∧
+    DefineLine C01_modesEnv (C01_txt "[mode]" 3) (C01_txt "steps" 11) .steps ∧
+    DefineLine C01_modesEnv (C01_txt "[mode]" 3) (C01_txt "ingredients" 11) .components ∧
+    DuplicateLine C01_modesEnv (C01_txt "[duplicate]" 3) (C01_txt "ref" 16) .reference :=
+  ⟨⟨by decide, by decide, by decide⟩, ⟨by decide, by decide, by decide⟩, ⟨by decide, by decide, by decide⟩,
+   ⟨by decide, by decide, by decide⟩⟩
+/-- the accepted values, exhaustively: anything else selects nothing (the code reports `config-invalid-value`) -/
+example : defineModeOf "all".toList = some .all ∧ defineModeOf "default".toList = some .all ∧
+    defineModeOf "components".toList = some .components ∧ defineModeOf "ingredients".toList = some .components ∧
+    defineModeOf "steps".toList = some .steps ∧ defineModeOf "text".toList = some .text ∧
+    defineModeOf "step".toList = none ∧ duplicateModeOf "new".toList = some .new ∧
+    duplicateModeOf "default".toList = some .new ∧ duplicateModeOf "reference".toList = some .reference ∧
+    duplicateModeOf "ref".toList = some .reference ∧ duplicateModeOf "all".toList = none := by decide
+
+/-- **A block in text mode becomes a text paragraph copied from the source.**  The collector is in define mode
+    `text`; the events are `Start kind`, the items of the block, `End kind` — for ANY block kind, in particular a
+    step block.  Each item contributes a piece (`textModePiece`): a text its shown text, a component (ingredient,
+    cookware, timer) the characters of the source between the ends of its span (`pieces` says the slices exist).
+    Then the current section gets ONE `Content::Text` holding the pieces joined — nothing when that is empty —,
+    one warning `component-in-text-mode:<kind>` per component, placed on it, is appended to the diagnostics, and
+    nothing else changes: the components do NOT enter the tables, there is no step, the step counter stays. -/
+theorem C01_text_mode_block {α : Type} [Arith α] (env : Env) (input : Str) (rest : List (Ev α)) (kind : BlockKind)
+    (st : List (SItem α)) (pieces : List Str) (s : Col α) (hd : s.defineMode = .text)
+    (hp : st.map (textModePiece input) = pieces.map some) :
+    parseEventsLoop env input ([Ev.start kind] ++ st.map SItem.ev ++ [Ev.stop kind] ++ rest) s =
+      parseEventsLoop env input rest
+        { s with cur := ⟨s.cur.name, s.cur.content ++ xParaContent pieces.flatten⟩, block := none,
+                 diags := s.diags ++ (st.flatMap textModeWarn).toArray } :=
+  rtn_text_block env input rest kind st pieces s hd hp
+
+/-- example: in text mode the step `A @s` (the source is `A @s`, the ingredient is written at bytes 2–4): the
+    paragraph is the source text, the ingredient is reported as ignored and is not in the table -/
+def C01_exS : Loc (PIngredient Rat) := ⟨⟨⟨⟨0⟩, ⟨3, 3⟩⟩, none, C01_txt "s" 3, none, none, none⟩, ⟨2, 4⟩⟩
+example : (parseEvents (α := Rat) C01_modesEnv "A @s".toList
+      ([.metadata (C01_txt "[mode]" 3) (C01_txt "text" 11), .start .step, .text (C01_txt "A " 0),
+        .ingredient C01_exS, .stop .step])).output.map
+      (fun c => (c.sections, c.ingredients.size, c.diags.toList.map (fun d => (d.kind, d.labels)))) =
+    some ([⟨none, [.text "A @s".toList]⟩], 0, [("component-in-text-mode:ingredient", [⟨2, 4⟩])]) := by rfl
+example : [SItem.text (C01_txt "A " 0), SItem.ingredient C01_exS].map (textModePiece "A @s".toList) =
+    ["A ".toList, "@s".toList].map some := by decide
+
+/-- **The exact rule of the modes for a component without intermediate data** (`resolve_reference`).  Given the
+    define mode, the duplicate mode, the written modifiers, whether the name has an earlier non-REF definition
+    (`found`) and whether the checks of a reference against that definition are quiet (`target`), `modeRuleB`
+    holds exactly in these two situations, in which the code reports nothing:
+    * the component STAYS A DEFINITION: no `&`, and either `+` is written where the mode would otherwise have
+      made it a reference (steps mode; duplicate mode `reference` with the name found), or `+` is not written,
+      the define mode is not `steps`, and the duplicate mode is `new` or the name is not found;
+    * the component BECOMES A REFERENCE: no `+`, the target is fine, and `&` is written (then the modes must be
+      the default ones: elsewhere `&` is redundant) or the define mode is `steps` or the duplicate mode is
+      `reference` (an implicit reference). -/
+theorem C01_mode_rule (dm : DefineMode) (dup : DuplicateMode) (mods : Modifiers) (found target : Bool)
+    (h : modeRuleB dm dup mods found target = true) :
+    (mods.contains Modifiers.REF = false ∧
+      ((mods.contains Modifiers.NEW = true ∧ (dm = .steps ∨ (dup = .reference ∧ found = true))) ∨
+       (mods.contains Modifiers.NEW = false ∧ dm ≠ .steps ∧ (dup = .new ∨ found = false)))) ∨
+    (mods.contains Modifiers.NEW = false ∧ target = true ∧
+      (mods.contains Modifiers.REF = true ∨ dm = .steps ∨ dup = .reference) ∧
+      (mods.contains Modifiers.REF = true → dm ≠ .steps ∧ dup = .new)) :=
+  rtq_modeRule dm dup mods found target h
+
+example : modeRuleB .steps .new ⟨0⟩ true true = true ∧ modeRuleB .steps .new ⟨0⟩ false false = false ∧
+    modeRuleB .all .reference ⟨0⟩ true true = true ∧ modeRuleB .all .reference ⟨0⟩ false false = true ∧
+    modeRuleB .all .reference ⟨Modifiers.NEW⟩ true false = true ∧
+    modeRuleB .all .reference ⟨Modifiers.NEW⟩ false false = false ∧
+    modeRuleB .all .reference ⟨Modifiers.REF⟩ true true = false ∧ modeRuleB .all .new ⟨Modifiers.REF⟩ true true = true := by
+  decide
+
+/-- **An ingredient that becomes a reference, in every mode** (generalises `C01_reference_event_partial`, which
+    has the default modes and `&`).  Inside a step block; no intermediate data; no scaling-lock warning; no `+`;
+    `&` is written, or the define mode is `steps`, or the duplicate mode is `reference` — and a written `&` is not
+    redundant; the name has an earlier non-REF definition, the last one at `t`, which is a definition with every
+    modifier of the component (HIDDEN, OPT, RECIPE are inherited); the checks of a reference are quiet
+    (`RefChecksQuiet`).  Then the event appends the reference `asReference …` (relation `reference t`, the written
+    and inherited modifiers and REF), makes the definition list the new index back, appends the step item, and
+    reports NOTHING.  In steps mode and in duplicate mode `reference` this is the IMPLICIT reference of a
+    component written as a plain `@name`. -/
+theorem C01_reference_event_any_mode {α : Type} [Arith α] (env : Env) (input : Str) (li : Loc (PIngredient α))
+    (s : Col α) (items : List Item) (t : Nat) (defn : Ingredient (ScalableValue α)) (defLoc : Loc (PIngredient α))
+    (rf : List Nat) (b : Bool) (tg : Option RefTarget) (hb : s.block = some (.step items))
+    (hinter : li.val.inter = none) (hlock : ∀ q, li.val.quantity = some q → lockOK q.val.value true)
+    (hNEW : li.val.modifiers.val.contains Modifiers.NEW = false)
+    (htreat : li.val.modifiers.val.contains Modifiers.REF = true ∨ s.defineMode = .steps ∨
+      s.duplicateMode = .reference)
+    (hquiet : li.val.modifiers.val.contains Modifiers.REF = true → s.defineMode ≠ .steps ∧ s.duplicateMode = .new)
+    (hfound : sameNameIdx env (s.ingredients.toList.map (fun x => (x.name, x.modifiers))) (ingrOf env li).name = some t)
+    (hdefn : s.ingredients[t]? = some defn) (hloc : s.locIngr[t]? = some defLoc)
+    (hrel : defn.relation = ⟨.definition rf b, tg⟩)
+    (hconf : refConflict li.val.modifiers.val
+      ⟨defn.modifiers.bits &&& (Modifiers.HIDDEN ||| Modifiers.OPT ||| Modifiers.RECIPE)⟩ = 0)
+    (hq : RefChecksQuiet env li (ingrOf env li).quantity defn b) :
+    (processEvent env input (.ingredient li) s).2 =
+      { s with
+        locIngr := s.locIngr.push li,
+        ingredients := (s.ingredients.setIfInBounds t (backlinked defn rf s.ingredients.size b tg)).push
+          (asReference (ingrOf env li) defn.modifiers t),
+        block := some (.step (items ++ [.ingredient s.ingredients.size])) } :=
+  rtn_proc_ingredient_ref env input li s items t defn defLoc rf b tg hb hinter hlock hNEW htreat hquiet hfound hdefn
+    hloc hrel hconf hq
+
+/-- the same for a cookware item (`#name` in steps mode / duplicate mode `reference`, `#&name` in the default modes) -/
+theorem C01_cookware_reference_event_any_mode {α : Type} [Arith α] (env : Env) (input : Str) (lc : Loc (PCookware α))
+    (s : Col α) (items : List Item) (t : Nat) (defn : Cookware (ScalableValue α)) (defLoc : Loc (PCookware α))
+    (rf : List Nat) (b : Bool) (hb : s.block = some (.step items))
+    (hlock : ∀ q, lc.val.quantity = some q → lockOK q.val false)
+    (hNEW : lc.val.modifiers.val.contains Modifiers.NEW = false)
+    (htreat : lc.val.modifiers.val.contains Modifiers.REF = true ∨ s.defineMode = .steps ∨
+      s.duplicateMode = .reference)
+    (hquiet : lc.val.modifiers.val.contains Modifiers.REF = true → s.defineMode ≠ .steps ∧ s.duplicateMode = .new)
+    (hfound : sameNameIdx env (s.cookware.toList.map (fun x => (x.name, x.modifiers))) (cwOf env lc).name = some t)
+    (hdefn : s.cookware[t]? = some defn) (hloc : s.locCw[t]? = some defLoc)
+    (hrel : defn.relation = .definition rf b)
+    (hconf : refConflict lc.val.modifiers.val ⟨defn.modifiers.bits &&& (Modifiers.HIDDEN ||| Modifiers.OPT)⟩ = 0)
+    (hq : CwRefChecksQuiet lc (cwOf env lc).quantity defn b) :
+    (processEvent env input (.cookware lc) s).2 =
+      { s with
+        locCw := s.locCw.push lc,
+        cookware := (s.cookware.setIfInBounds t (cwBacklinked defn rf s.cookware.size b)).push
+          (cwAsReference (cwOf env lc) defn.modifiers t),
+        block := some (.step (items ++ [.cookware s.cookware.size])) } :=
+  rtn_proc_cookware_ref env input lc s items t defn defLoc rf b hb hlock hNEW htreat hquiet hfound hdefn hloc hrel hconf hq
+
+/-- **An ingredient that stays a definition, in every mode but components**: no `&`; `+` exactly where the mode
+    would have made it a reference (first alternative), or no `+` where the mode leaves it alone (second).  It is
+    appended as written — `+` stays among its modifiers —, `defined_in_step`, nothing is reported.  In duplicate
+    mode `reference` this is the FIRST occurrence of a name, or a later one written `@+name`. -/
+theorem C01_definition_event_any_mode {α : Type} [Arith α] (env : Env) (input : Str) (li : Loc (PIngredient α))
+    (s : Col α) (items : List Item) (hb : s.block = some (.step items)) (hne : s.defineMode ≠ .components)
+    (hinter : li.val.inter = none) (hlock : ∀ q, li.val.quantity = some q → lockOK q.val.value true)
+    (hREF : li.val.modifiers.val.contains Modifiers.REF = false)
+    (hq : (li.val.modifiers.val.contains Modifiers.NEW = true ∧
+            (s.defineMode = .steps ∨ (s.duplicateMode = .reference ∧
+              (sameNameIdx env (s.ingredients.toList.map (fun x => (x.name, x.modifiers))) (ingrOf env li).name).isSome
+                = true))) ∨
+          (li.val.modifiers.val.contains Modifiers.NEW = false ∧ s.defineMode ≠ .steps ∧
+            (s.duplicateMode = .new ∨
+              sameNameIdx env (s.ingredients.toList.map (fun x => (x.name, x.modifiers))) (ingrOf env li).name = none))) :
+    (processEvent env input (.ingredient li) s).2 =
+      { s with locIngr := s.locIngr.push li, ingredients := s.ingredients.push (ingrOf env li),
+               block := some (.step (items ++ [.ingredient s.ingredients.size])) } :=
+  rtn_proc_ingredient_def env input li s items hb hne hinter hlock hREF hq
+
+/-- **Duplicate mode `reference`: the table of a document that repeats a name.**  Whatever the define mode
+    (`all` or `steps`), a component without `+` whose name has an earlier non-REF definition — the last one at
+    `t`, a definition — is stored as the reference `asReference …` to `t`, and the definition at `t` lists the new
+    index back (`backlinked`); in duplicate mode `reference` no `&` is needed for that. -/
+theorem C01_duplicate_reference_table {α : Type} [Arith α] (env : Env) (dm : DefineMode) (content : List Content)
+    (nsec : Nat) (tbl : Array (Ingredient (ScalableValue α))) (igr0 : Ingredient (ScalableValue α)) (t : Nat)
+    (defn : Ingredient (ScalableValue α)) (rf : List Nat) (b : Bool) (tg : Option RefTarget)
+    (hN : igr0.modifiers.contains Modifiers.NEW = false)
+    (hfound : sameNameIdx env (tbl.toList.map (fun x => (x.name, x.modifiers))) igr0.name = some t)
+    (hdefn : tbl[t]? = some defn) (hrel : defn.relation = ⟨.definition rf b, tg⟩) :
+    ingrPushM env dm .reference content nsec tbl none igr0 =
+      (tbl.setIfInBounds t (backlinked defn rf tbl.size b tg)).push (asReference igr0 defn.modifiers t) :=
+  rtq_ingrPushM_reference env dm .reference content nsec tbl igr0 t defn rf b tg hN (Or.inr (Or.inr rfl)) hfound hdefn hrel
+
+/-- … the first occurrence of a name is appended as written, and so is every component written with `+` -/
+theorem C01_duplicate_reference_first {α : Type} [Arith α] (env : Env) (dm : DefineMode) (dup : DuplicateMode)
+    (content : List Content) (nsec : Nat) (tbl : Array (Ingredient (ScalableValue α)))
+    (igr0 : Ingredient (ScalableValue α))
+    (h : igr0.modifiers.contains Modifiers.NEW = true ∨
+      sameNameIdx env (tbl.toList.map (fun x => (x.name, x.modifiers))) igr0.name = none) :
+    ingrPushM env dm dup content nsec tbl none igr0 = tbl.push igr0 := by
+  rcases h with h | h
+  · exact rtq_ingrPushM_new env dm dup content nsec tbl igr0 h
+  · exact rtq_ingrPushM_first env dm dup content nsec tbl igr0 h
+
+/-- in the default modes `ingrPushM` is the rule of `C01_analysis_doc_all_refs`: without `&` appended as written -/
+theorem C01_default_modes_table {α : Type} [Arith α] (env : Env) (content : List Content) (nsec : Nat)
+    (tbl : Array (Ingredient (ScalableValue α))) (igr0 : Ingredient (ScalableValue α))
+    (hR : igr0.modifiers.contains Modifiers.REF = false) :
+    ingrPushM env .all .new content nsec tbl none igr0 = tbl.push igr0 :=
+  rtq_ingrPushM_default env content nsec tbl igr0 hR
+
+/-- **Analysis layer for documents with ARBITRARY mode switches** (extends `C01_analysis_components_mode`).
+    `blocks` is what the parser hands over: plain blocks (steps, section lines, `>>` entries, text paragraphs) and
+    `>>` lines that are switches of the define mode or of the duplicate mode, anywhere between the blocks.  The
+    table-independent side conditions are threaded with the define mode (`nSideOK`: every switch line is one the
+    code accepts, `DefineLine` / `DuplicateLine`; every other `>>` line is a plain entry; no scaling-lock warning;
+    a timer ADVANCED_UNITS accepts; a text free of inline quantities only where it becomes a step item).  The
+    conditions on components are threaded with both modes and the tables (`yOKB`, a computable check over the
+    described blocks `NBlock.y`):
+    * define mode `all` / `steps`: the step is not empty and every component obeys `modeRuleB` (`C01_mode_rule`)
+      — an intermediate reference as in `C01_analysis_doc_all_refs`, the modes play no part for it;
+    * components mode: duplicate mode `new`, plain definitions, texts without letter or digit;
+    * text mode: texts only (a component would be reported, `C01_text_mode_block`).
+    Then `parse_events` returns the recipe `yRun …`, a PURE function of the described blocks:
+    * a step in mode `all` / `steps` is pushed and numbered; its components enter the tables by `ingrPushM` /
+      `cwPushM`: in steps mode every component without `+` is a reference to the last earlier definition of its
+      name; in duplicate mode `reference` a repeated name is (`C01_duplicate_reference_table`);
+    * a step in components mode only extends the tables, `defined_in_step = false`; no step, no number;
+    * a step in text mode becomes an unnumbered text paragraph of its shown texts;
+    * section lines, entries, text paragraphs as before, in every mode;
+    * the switches are not metadata: not in the map, not counted by the deprecation notice (`nEntries`);
+    * no other diagnostic, no panic. -/
+theorem C01_analysis_modes {α : Type} [Arith α] (env : Env) (input : Str) (blocks : List (NBlock α))
+    (hside : nSideOK env .all blocks)
+    (hok : yOKB env .all .new {} [] ⟨none, []⟩ 1 (blocks.map (NBlock.y env)) = true) :
+    ∃ c : Col α, parseEvents env input (blocks.flatMap NBlock.events) = ⟨some c, c.diags, none⟩ ∧
+      c.sections = (yRun env .all .new {} [] ⟨none, []⟩ 1 [] (blocks.map (NBlock.y env))).secs ∧
+      c.ingredients = (yRun env .all .new {} [] ⟨none, []⟩ 1 [] (blocks.map (NBlock.y env))).T.ing ∧
+      c.cookware = (yRun env .all .new {} [] ⟨none, []⟩ 1 [] (blocks.map (NBlock.y env))).T.cw ∧
+      c.timers = (yRun env .all .new {} [] ⟨none, []⟩ 1 [] (blocks.map (NBlock.y env))).T.tm ∧
+      c.metaMap = (yRun env .all .new {} [] ⟨none, []⟩ 1 [] (blocks.map (NBlock.y env))).metaMap ∧
+      c.diags = deprecation (docSpans (nEntries blocks)) ∧
+      c.inlineQ = #[] ∧ c.frontMatter = none :=
+  rtq_parseEvents_doc env input blocks hside hok
+
+/-- what a step block is in each define mode, in `yRun` (the four closed forms) -/
+theorem C01_step_by_mode {α : Type} [Arith α] (env : Env) (dup : DuplicateMode) (T : XTbls α) (secs : List Section)
+    (cur : Section) (num : Nat) (m : List (Str × Str)) (st : List (XItem α)) (r : List (YBlock α)) :
+    yRun env .text dup T secs cur num m (.step st :: r) =
+      yRun env .text dup T secs ⟨cur.name, cur.content ++ xParaContent (xTexts st)⟩ num m r ∧
+    yRun env .components dup T secs cur num m (.step st :: r) = yRun env .components dup (xCTbls T st) secs cur num m r ∧
+    yRun env .steps dup T secs cur num m (.step st :: r) =
+      yRun env .steps dup (yStepTbls env .steps dup cur.content secs.length T st) secs
+        ⟨cur.name, cur.content ++ [.step ⟨yItems env .steps dup cur.content secs.length T st, num⟩]⟩ (num + 1) m r ∧
+    yRun env .all dup T secs cur num m (.step st :: r) =
+      yRun env .all dup (yStepTbls env .all dup cur.content secs.length T st) secs
+        ⟨cur.name, cur.content ++ [.step ⟨yItems env .all dup cur.content secs.length T st, num⟩]⟩ (num + 1) m r :=
+  ⟨rfl, rfl, rfl, rfl⟩
+
+/-! example (analysis layer): `>> [duplicate]: ref`, the step `@salt{=1%tsp}`, the step `Add @salt` (no `&`),
+    `>> [mode]: steps`, the step `@salt` again: one definition that lists both later occurrences back, two implicit
+    references; three numbered steps; no diagnostic at all. -/
+def C01_exSalt2 : Loc (PIngredient Rat) := ⟨⟨⟨⟨0⟩, ⟨65, 65⟩⟩, none, C01_txt "salt" 65, none, none, none⟩, ⟨64, 69⟩⟩
+def C01_exSalt3 : Loc (PIngredient Rat) := ⟨⟨⟨⟨0⟩, ⟨91, 91⟩⟩, none, C01_txt "salt" 91, none, none, none⟩, ⟨90, 95⟩⟩
+def C01_exDupBlocks : List (NBlock Rat) :=
+  [.duplicate (C01_txt "[duplicate]" 3) (C01_txt "ref" 16) .reference,
+   .plain (.step [.ingredient C01_exSalt1]),
+   .plain (.step [.text (C01_txt "Add " 60), .ingredient C01_exSalt2]),
+   .define (C01_txt "[mode]" 73) (C01_txt "steps" 81) .steps,
+   .plain (.step [.ingredient C01_exSalt3])]
+example : nSideOK C01_modesEnv .all C01_exDupBlocks := by
+  refine ⟨⟨by decide, by decide, by decide⟩, ?_, ?_, ⟨by decide, by decide, by decide⟩, ?_, trivial⟩
+  · intro it hit
+    simp only [List.mem_cons, List.not_mem_nil, or_false] at hit
+    subst hit
+    intro q hq; cases hq; intro _; exact ⟨rfl, rfl⟩
+  · intro it hit
+    simp only [List.mem_cons, List.not_mem_nil, or_false] at hit
+    rcases hit with rfl | rfl
+    · intro _ h; exact absurd h (by decide)
+    · intro q hq; cases hq
+  · intro it hit
+    simp only [List.mem_cons, List.not_mem_nil, or_false] at hit
+    subst hit
+    intro q hq; cases hq
+example : yOKB C01_modesEnv .all .new {} [] ⟨none, []⟩ 1 (C01_exDupBlocks.map (NBlock.y C01_modesEnv)) = true := by decide
+example : (yRun C01_modesEnv .all .new {} [] ⟨none, []⟩ 1 [] (C01_exDupBlocks.map (NBlock.y C01_modesEnv))).secs =
+    [⟨none, [.step ⟨[.ingredient 0], 1⟩, .step ⟨[.text "Add ".toList, .ingredient 1], 2⟩, .step ⟨[.ingredient 2], 3⟩]⟩] := by
+  decide
+example : (yRun C01_modesEnv .all .new {} [] ⟨none, []⟩ 1 [] (C01_exDupBlocks.map (NBlock.y C01_modesEnv))).T.ing.toList.map
+      (fun i => (i.name, i.relation, i.modifiers)) =
+    [("salt".toList, ⟨.definition [1, 2] true, none⟩, ⟨0⟩),
+     ("salt".toList, ⟨.reference 0, some .ingredient⟩, ⟨Modifiers.REF⟩),
+     ("salt".toList, ⟨.reference 0, some .ingredient⟩, ⟨Modifiers.REF⟩)] := by decide
+example : (parseEvents C01_modesEnv [] (C01_exDupBlocks.flatMap NBlock.events)).output.map
+      (fun c => (c.ingredients.toList.map (·.relation), c.diags.toList)) =
+    some ([⟨.definition [1, 2] true, none⟩, ⟨.reference 0, some .ingredient⟩, ⟨.reference 0, some .ingredient⟩], []) := by
+  rfl
+/-- the conditions are needed: in steps mode a name that was not defined before is an error; in duplicate mode
+    `reference` a written `&` is reported as redundant -/
+example : yOKB (α := Rat) C01_modesEnv .steps .new {} [] ⟨none, []⟩ 1 [.step [.ingr none (ingrOf C01_modesEnv C01_exSalt2)]] =
+    false := by decide
+example : (parseEvents C01_modesEnv [] ([.metadata (C01_txt "[mode]" 3) (C01_txt "steps" 11)] ++
+      stepEvents [.ingredient C01_exSalt2])).diags.toList.map (·.kind) = ["reference-not-found"] := by rfl
+example : (parseEvents C01_modesEnv [] ([.metadata (C01_txt "[duplicate]" 3) (C01_txt "ref" 16)] ++
+      stepEvents [.ingredient C01_exSalt1] ++ stepEvents [.ingredient C01_exSaltRef])).diags.toList.map (·.kind) =
+    ["redundant-ref"] := by rfl
+
 
 end Cook
